@@ -1253,15 +1253,60 @@ package decimal
 //@   hint[after:mul#4] mul_eq(V(result), V(x[i:i + (m - i > k ? k : m - i)])*V(y[k:]), P(i + k))
 //@   hint[after:mul#4] assert(V(z) + V(result)*P(i + k) == V(x[:i + (m - i > k ? k : m - i)])*V(y))
 
+//@ func decBasicSqr(z, x dec)
+//@   requires[len]     len(x) >= 1 && len(z) >= 2*len(x) && len(x) <= 1099511627775
+//@   requires[words]   wordsok(x)
+//@   requires[apart]   z.arr != x.arr
+//@   modifies mem(z[:2*len(x)])
+//@   ensures[words,C06] wordsok(z[:2*len(x)])
+//@   ensures[value,C06] V(z[:2*len(x)]) == V(x)*V(x)
+//@   ensures[operands,C09] samewords(x, old(x))
+//@   status assumed bounded: bounded/c06_test.go (squares on the diagonal plus doubled cross products in a pooled buffer)
+
+//@ func decKaratsubaSqr(z, x dec)
+//@   requires[len]   len(x) >= 1 && len(z) >= 6*len(x)
+//@   requires[words] wordsok(x)
+//@   requires[apart] z.arr != x.arr
+//@   modifies mem(z[:6*len(x)])
+//@   ensures[words,C06] wordsok(z[:2*len(x)])
+//@   ensures[value,C06] V(z[:2*len(x)]) == V(x)*V(x)
+//@   ensures[operands,C09] samewords(x, old(x))
+//@   status assumed bounded: bounded/c06_test.go (recursive Karatsuba squaring)
+
+// dec.sqr: dispatch, one-word case, schoolbook path and the composition
+// (x0 + x1*B^k)^2 = x0^2 + 2*x0*x1*B^k + x1^2*B^2k are verified.
 //@ func (z dec) sqr(x dec) dec
-//@   requires[words]   wordsok(x) && natnorm(x) && small(x)
+//@   requires[words]   wordsok(x) && natnorm(x) && len(x) <= 100000000
+//@   requires[dst]     mul_dst(z, x)
 //@   modifies memcap(z)
 //@   ensures[where]    result_in(result, z)
 //@   ensures[words,C06,C08] wordsok(result) && natnorm(result)
 //@   ensures[value,C01,C06] V(result) == old(V(x))*old(V(x))
 //@   ensures[len]      len(result) <= 2*len(x)
 //@   ensures[operands,C09,C18] !goalias(z, x) ==> samewords(x, old(x))
-//@   status assumed bounded: bounded/c06_test.go
+//@   hint[entry] V_bounds(x, 0, len(x))
+//@   hint[entry] V_nonneg(x, 0, len(x))
+//@   hint[entry] P_add(len(x), len(x))
+//@   hint[entry] mul_mono(V(x) + 1, P(len(x)), V(x))
+//@   hint[entry] mul_mono(V(x) + 1, P(len(x)), P(len(x)))
+//@   hint[entry] assert(V(x)*V(x) < P(2*len(x)))
+//@   hint[after:mul10WW#1] Vdef(z, 0, 1)
+//@   hint[after:mul10WW#1] Vdef(z, 0, 0)
+//@   hint[after:mul10WW#1] Vdef(x, 0, 0)
+//@   hint[after:clear#1] V_split(z, 0, 2*k, len(z))
+//@   hint[after:clear#1] assert(V(z) == V(x[:k])*V(x[:k]))
+//@   hint[after:mul#1] V_split(x, 0, k, n)
+//@   hint[after:mul#1] V_nonneg(x, k, n)
+//@   hint[after:mul#1] V_nonneg(x, 0, k)
+//@   hint[after:mul#1] P_add(k, k)
+//@   hint[after:mul#1] mul_eq(V(x), V(x[:k]) + P(k)*V(x[k:]), V(x))
+//@   hint[after:mul#1] mul_eq(V(x), V(x[:k]) + P(k)*V(x[k:]), V(x[:k]))
+//@   hint[after:mul#1] mul_eq(V(x), V(x[:k]) + P(k)*V(x[k:]), P(k)*V(x[k:]))
+//@   hint[after:mul#1] mul_eq(V(result), V(x[:k])*V(x[k:]), P(k))
+//@   hint[after:mul#1] mul_eq(P(2*k), P(k)*P(k), V(x[k:])*V(x[k:]))
+//@   hint[after:mul#1] assert(V(x)*V(x) == V(x[:k])*V(x[:k]) + 2*(V(result)*P(k)) + V(x[k:])*V(x[k:])*P(2*k))
+//@   hint[after:mul#1] assert(V(x[k:])*V(x[k:])*P(2*k) >= 0 && V(result)*P(k) >= 0)
+//@   hint[after:sqr#1] mul_eq(V(result), V(x[k:])*V(x[k:]), P(2*k))
 
 //@ func (z dec) div(z2, u, v dec) (q, r dec)
 //@   requires[words]   wordsok(u) && wordsok(v) && natnorm(u) && natnorm(v) && len(v) >= 1 && small(u) && small(v)
